@@ -217,9 +217,9 @@ def target_time_constants():
         # endpoints: 10**(log(tmin) + (k-1)/(n-1)*log(tmax/tmin)) at k=1 and k=n, with pow10/log10 inverse axioms
         lg = z3.Function("log10", z3.RealSort(), z3.RealSort())
         p10 = z3.Function("pow10", z3.RealSort(), z3.RealSort())
-        tmin, tmax, n, x, y = z3.Reals("tmin tmax n x y")
-        ax = [z3.ForAll([x], z3.Implies(x > 0, p10(lg(x)) == x)), z3.ForAll([x, y], z3.Implies(z3.And(x > 0, y > 0), lg(x / y) == lg(x) - lg(y))),
-              tmin > 0, tmax > 0, n >= 2]
+        tmin, tmax, n = z3.Reals("tmin tmax n")
+        # ground instances of the two axioms  pow10(log10 x) = x  and  log10(x/y) = log10 x - log10 y  (x, y > 0)
+        ax = [tmin > 0, tmax > 0, n >= 2, p10(lg(tmin)) == tmin, p10(lg(tmax)) == tmax, lg(tmax / tmin) == lg(tmax) - lg(tmin)]
         r = z3.Real("r")        # r = (k-1)/(n-1)
         val = p10(lg(tmin) + r * lg(tmax / tmin))
         sess.check("lemma", ax + [r == 0], val == tmin, fn.lineno, label="first-time-constant=tau_min")   # (k-1)/(n-1) at k=1
